@@ -7,8 +7,10 @@ CLAIM = ("Decided per explored history by comparing, on the implementation, a ru
          "(noninterference oracle), together with the correspondence check of both runs against the model. Proved in Coq: the "
          "characterisation of family names used by the oracles (full_infix recognises exactly fixed[_infix][.suffix][.gz], "
          "C14_family_name_shape) and that the model's listing never returns a name without the fixed part and separator "
-         "(C14_listing_prefix). A proof of noninterference for the model over all histories is not finished: partial.")
-THEOREMS = ["C14_family_name_shape", "C14_listing_prefix"]
+         "(C14_listing_prefix); the listing's family test accepts exactly the documented pattern (C14_listing_accepts_family_only / "
+         "_all_family) and an entry it rejects does not influence filter_files, on which numbering, collision handling and cleanup "
+         "work (C14_foreign_ignored). Noninterference for whole histories (all effects) is not proved: partial.")
+THEOREMS = ["C14_foreign_ignored", "C14_listing_accepts_family_only", "C14_listing_accepts_all_family", "C14_family_name_shape", "C14_listing_prefix"]
 TRUSTED = ["modelled, not verified: read_dir, Path::extension/file_stem (std semantics pinned in DESIGN appendix D)"]
 ASSUMPTIONS = ["foreign names are generated from a near-miss grammar; file modification times are not compared (content and existence are)"]
 RULE = ("pairs of cases: (a) 1-4 foreign files/sub-directories created first - other separator, longer/shorter basename with common "
